@@ -662,7 +662,7 @@ func scanLoopVerdict(w *World, eff *Effects, l scanLoop) (instance bool, ok bool
 		return true, false, "more than 20000 paths through the loop body", ""
 	}
 	deps := collectBoundDeps(w, eff, l.Head, l.Bound)
-	var stuck, skipped []string
+	var stuck, skipped, dropped []string
 	nAdv, nShrink := 0, 0
 	anyKept := false
 	for _, path := range paths {
@@ -742,6 +742,44 @@ func scanLoopVerdict(w *World, eff *Effects, l scanLoop) (instance bool, ok bool
 				}
 			}
 		}
+		if shrunk == "bound lowered" && l.Cursor != nil {
+			// swap-remove: the trip gives up the last position of the scanned range, so what was there must replace the
+			// element under the cursor; otherwise the last element is lost and the examined one stays
+			moved, wrong := false, ""
+			nb := ev.eval(deps.intPhi.Edges[pi], len(path)-1, 0)
+			for bi, b := range path {
+				for _, ins := range b.Instrs {
+					idx, ok := movedIntoCursorIdx(w, ins, l.CursorVal)
+					if !ok {
+						continue
+					}
+					iv := ev.eval(idx, bi, 0)
+					// symbolic form: the new bound is Y - 1 and the element is fetched from Y (the old bound)
+					nbv, _ := ev.through(deps.intPhi.Edges[pi], len(path)-1)
+					isv, _ := ev.through(idx, bi)
+					if sub, ok := nbv.(*ssa.BinOp); ok && sub.Op == token.SUB && isv != nbv {
+						if one, ok := constInt(sub.Y); ok && one == 1 {
+							if y, _ := ev.through(sub.X, len(path)-1); y == isv {
+								wrong = fmt.Sprintf("%s fetches the element at the old bound (one past the range), not at the new one", w.InstrPos(ins))
+								continue
+							}
+						}
+					}
+					if iv.Base != nil && iv.Base == nb.Base && iv.Lo == iv.Hi && nb.Lo == nb.Hi && iv.Lo != nb.Lo {
+						wrong = fmt.Sprintf("%s moves the element at offset %d from the old bound, the bound goes to offset %d", w.InstrPos(ins), iv.Lo, nb.Lo)
+						continue
+					}
+					moved = true
+				}
+			}
+			if !moved && readsAtCursor(w, path, l.CursorVal) {
+				if wrong != "" {
+					dropped = append(dropped, wrong)
+				} else {
+					dropped = append(dropped, "trip "+pathString(path)+" lowers the bound and keeps the cursor without moving the element at the new bound into the cursor position")
+				}
+			}
+		}
 		if shrunk != "" {
 			nShrink++
 			continue
@@ -755,6 +793,15 @@ func scanLoopVerdict(w *World, eff *Effects, l scanLoop) (instance bool, ok bool
 		skipped = dedupe(skipped)
 		sort.Strings(skipped)
 		return true, false, "", "an element is skipped: " + strings.Join(skipped, "; ")
+	}
+	if len(dropped) > 0 {
+		dropped = dedupe(dropped)
+		sort.Strings(dropped)
+		show := dropped
+		if len(show) > 2 {
+			show = show[:2]
+		}
+		return true, false, "", "the last element of the range is dropped instead of the examined one: " + strings.Join(show, "; ")
 	}
 	if len(stuck) > 0 {
 		sort.Strings(stuck)
@@ -835,7 +882,7 @@ func fixtureR2_2(fw *World) []string {
 			fails = append(fails, fmt.Sprintf("R2.2 fixture %s: expected a discharged scan loop (found=%v ok=%v)", n, found, ok))
 		}
 	}
-	for _, n := range []string{"BadCountAgain", "BadNoAdvance", "BadNoBoundDecrement", "BadOnlyElementWrite"} {
+	for _, n := range []string{"BadCountAgain", "BadNoAdvance", "BadNoBoundDecrement", "BadOnlyElementWrite", "BadDropLast", "BadMoveWrongSlot"} {
 		found, ok := verdict(n)
 		if !found || ok {
 			fails = append(fails, fmt.Sprintf("R2.2 fixture %s: expected a report (found=%v ok=%v)", n, found, ok))
@@ -845,6 +892,63 @@ func fixtureR2_2(fw *World) []string {
 		fails = append(fails, "R2.2 fixture CountedLoop: a counted loop must not be an instance")
 	}
 	return fails
+}
+
+// movedIntoCursorIdx is movedIntoCursor returning the index the element comes from.
+func movedIntoCursorIdx(w *World, ins ssa.Instruction, cursor ssa.Value) (ssa.Value, bool) {
+	elemFrom := func(v ssa.Value) (idx ssa.Value, ok bool) {
+		switch x := v.(type) {
+		case *ssa.UnOp:
+			if x.Op == token.MUL {
+				if ia, ok := x.X.(*ssa.IndexAddr); ok {
+					return ia.Index, true
+				}
+			}
+		case *ssa.Call:
+			if c := x.Call.StaticCallee(); c != nil && w.InModule(w.unwrap(c)) && len(x.Call.Args) == 2 && typeShort(x.Call.Args[1].Type()) == "int" {
+				return x.Call.Args[1], true
+			}
+		}
+		return nil, false
+	}
+	switch y := ins.(type) {
+	case *ssa.Store:
+		ia, ok := y.Addr.(*ssa.IndexAddr)
+		if !ok || ia.Index != cursor {
+			return nil, false
+		}
+		if idx, ok := elemFrom(y.Val); ok && idx != cursor {
+			return idx, true
+		}
+	case *ssa.Call:
+		c := y.Call.StaticCallee()
+		if c == nil || !w.InModule(w.unwrap(c)) || len(y.Call.Args) != 3 || y.Call.Args[1] != cursor {
+			return nil, false
+		}
+		if idx, ok := elemFrom(y.Call.Args[2]); ok && idx != cursor {
+			return idx, true
+		}
+	}
+	return nil, false
+}
+
+// readsAtCursor: the trip reads the element under the cursor (directly or through a getter method).
+func readsAtCursor(w *World, path []*ssa.BasicBlock, cursor ssa.Value) bool {
+	for _, b := range path {
+		for _, ins := range b.Instrs {
+			switch x := ins.(type) {
+			case *ssa.IndexAddr:
+				if x.Index == cursor {
+					return true
+				}
+			case *ssa.Call:
+				if c := x.Call.StaticCallee(); c != nil && w.InModule(w.unwrap(c)) && len(x.Call.Args) == 2 && x.Call.Args[1] == cursor {
+					return true
+				}
+			}
+		}
+	}
+	return false
 }
 
 // movedIntoCursor recognises `seq[cursor] = seq[other]` (directly or through a setter/getter pair of accessor
